@@ -693,6 +693,17 @@ class Machine:
             return v
         if t is ast.Call:
             return self.ev_call(node, env)
+        if t in (ast.Yield, ast.YieldFrom):
+            scope = env
+            while scope is not None and "__yields__" not in scope:
+                scope = scope.get("__outer__")
+            if scope is None:
+                raise Unsupported("yield outside an eagerly evaluated generator")
+            if t is ast.Yield:
+                scope["__yields__"].append(ev(node.value, env) if node.value is not None else None)
+            else:
+                scope["__yields__"].extend(self.iterate(ev(node.value, env)))
+            return None
         if t is ast.Starred:
             raise Unsupported("starred")
         if t is ast.Slice:
@@ -976,7 +987,19 @@ class Machine:
                 gen = any(isinstance(n, (ast.Yield, ast.YieldFrom, ast.Await)) for st in node.body for n in _walk_no_nested(st))
                 node._sa_is_gen = gen
             if gen:
-                raise Unsupported("generator / coroutine " + qual)
+                # a generator function without sends: evaluated eagerly into the list of the values it yields.  That is only the same
+                # thing when producing the values has no effect the consumer could observe in between, so effects make it unsupported.
+                if any(isinstance(n, ast.Await) for st in node.body for n in _walk_no_nested(st)):
+                    raise Unsupported("coroutine " + qual)
+                scope["__yields__"] = []
+                n_events = len([e for e in self.events if e.kind in ("call", "set", "del")])
+                try:
+                    self.block(node.body, scope)
+                except _Return:
+                    pass
+                if len([e for e in self.events if e.kind in ("call", "set", "del")]) != n_events:
+                    raise Unsupported("generator with side effects " + qual)
+                return scope["__yields__"]
             try:
                 self.block(node.body, scope)
             except _Return as r:
@@ -1219,6 +1242,9 @@ def _live(seq):
 
 
 def _walk_no_nested(node):
+    if isinstance(node, (ast.FunctionDef, ast.AsyncFunctionDef, ast.Lambda, ast.ClassDef)):
+        yield node          # a nested definition: its body belongs to another scope
+        return
     stack = [node]
     while stack:
         n = stack.pop()
